@@ -28,8 +28,8 @@ def close(a, b, exact):
 
 def gen_abf(r, cid):
     n = r.choice([2, 2, 3, 3, 4])
-    nd = r.choice([1, 1, 2])
-    nbins = [r.randint(2, 4) for _ in range(nd)]
+    nd = r.choice([1, 1, 2, 2, 3])
+    nbins = [r.randint(2, 4 if nd < 3 else 3) for _ in range(nd)]
     F = r.choice([1, 2, 2, 3, 4])
     rounds = r.randint(1, 3)
     t_end = F * rounds + r.randint(0, F - 1)
@@ -907,6 +907,18 @@ def check_czar(run, exe, model, cases, scratch):
                 run.violation("czar:gather-not-the-sum", "after the gather at step %d replica 0 holds z counts %s, the walkers' z counts are %s (sum %s)"
                               % (t, g["gzcnt"], [d["zcnt"] for d in dumps], ecnt), {"kind": "czar", "case": c, "step": t})
                 break
+            # shared eABF end to end: the samples are binned on the extended coordinate, whose trajectory python does not
+            # know; but every walker's snapshot of the last exchange must be the sum of all walkers' local grids
+            # (each walker's own exchanged samples), and global = snapshot + what the walker collected since
+            lc = [sum(d["ocnt"][i] for d in dumps) for i in range(len(g["ocnt"]))]
+            ls = [sum(d["osum"][i] for d in dumps) for i in range(len(g["osum"]))]
+            badw = [w_ for w_, d in enumerate(dumps) if d["lcnt"] != lc or any(not close(a, b, False) for a, b in zip(d["lsum"], ls))
+                    or any(x < y for x, y in zip(d["cnt"], d["lcnt"]))]
+            if badw and c["freq"] < 100:
+                run.violation("czar:snapshot-not-the-sum-of-locals", "eABF walkers, gather at step %d: snapshot counts of walker %d are %s, the local counts of "
+                              "all walkers are %s (sum %s)" % (t, badw[0], dumps[badw[0]]["lcnt"], [d["ocnt"] for d in dumps], lc), {"kind": "czar", "case": c, "step": t})
+                break
+            run.dist("czar:z-gradient-nonzero" if any(x != 0.0 for d in dumps for x in d["zsum"]) else "czar:z-gradient-zero")
             tk = mo.split()
             mc = [int(x) for x in tk[1][4:].split(",")]
             ms = [float.fromhex(x) for x in tk[2][4:].split(",")]
